@@ -32,7 +32,12 @@ DEVB = "msmart.base_device.Device"
 
 DISCM = "msmart.discover."
 
+CLOUDM = "msmart.cloud."
+
 PROPS = {
+    "C19": {"targets": [CLOUDM + "BaseCloud.get_token", CLOUDM + "BaseCloud._post_request", CLOUDM + "NetHomePlusCloud._parse_response",
+                        "msmart.lan.Security.udpid", DISCM + "Discover._authenticate_device"],
+            "level": "proof"},
     "C17": {"targets": [DISCM + "Discover._get_device_version", DISCM + "Discover._get_device_info#wellformed", DISCM + "Discover._get_device_class",
                         DISCM + "Discover._get_device", DISCM + "_DiscoverProtocol._send_discovery", "C17.discovery_probe_is_pinned"],
             "level": "proof"},
